@@ -24,6 +24,8 @@ TStop == Ev("stop") /\ (IF stopped THEN UNCHANGED vars ELSE Stop)
 \* the object matches the filters again: a new instance, unless the last run of the old one is still in progress
 TRematch == Ev("rematch") /\ (IF matching THEN UNCHANGED vars ELSE Rematch)
 TUnmatch == Ev("unmatch") /\ (IF matching THEN Unmatch ELSE UNCHANGED vars)
+\* the API refused the PATCH of the last run's result for good: the timer task ends (family F17)
+TDies == Ev("patchfail") /\ Dies
 TQuiet == Ev("quiet") /\ ~Urgent /\ UNCHANGED vars
 SilentHead == HeadWith(0, [k |-> "ok", d |-> 0]) /\ pc' \in {"poll", "idle"} /\ UNCHANGED <<tid, l>>
 Advance == /\ l <= Len(T) /\ E.t > now /\ ~Urgent
@@ -33,8 +35,9 @@ AllInv == RespawnedFirst /\ FirstRun /\ NoOverlap /\ IdleLaw /\ AfterOk /\ After
 FirstBad == IF ~RespawnedFirst THEN "RespawnedFirst" ELSE IF ~FirstRun THEN "FirstRun" ELSE IF ~NoOverlap THEN "NoOverlap" ELSE IF ~IdleLaw THEN "IdleLaw" ELSE IF ~AfterOk THEN "AfterOk"
             ELSE IF ~AfterOkSharp THEN "AfterOkSharp" ELSE IF ~AfterTemp THEN "AfterTemp" ELSE IF ~AfterExc THEN "AfterExc"
             ELSE IF ~PermanentEndsIt THEN "PermanentEndsIt" ELSE "none"
-TNext == /\ (TStart \/ TEnd \/ TChange \/ TSelf \/ TStop \/ TRematch \/ TUnmatch \/ TQuiet \/ SilentHead \/ Advance) /\ bad' = (IF bad # "none" THEN bad ELSE FirstBad')
-         /\ fam' = (IF l <= Len(T) /\ l' = l + 1 /\ E.ev = "selfchange" THEN "F6" ELSE fam)
+TNext == /\ (TStart \/ TEnd \/ TChange \/ TSelf \/ TStop \/ TRematch \/ TUnmatch \/ TDies \/ TQuiet \/ SilentHead \/ Advance) /\ bad' = (IF bad # "none" THEN bad ELSE FirstBad')
+         /\ fam' = (IF l <= Len(T) /\ l' = l + 1 /\ E.ev = "selfchange" THEN "F6"
+                    ELSE IF l <= Len(T) /\ l' = l + 1 /\ E.ev = "patchfail" THEN "F17" ELSE fam)
 TSpec == TInit /\ [][TNext]_tvars
 Max2(a, b) == IF a >= b THEN a ELSE b
 Book == /\ TLCSet(3, [TLCGet(3) EXCEPT ![tid] = Max2(@, l)])
